@@ -78,31 +78,65 @@ def ob_generated_count(ctx, res):
     res.count("FIELDS", N)
 
 
+def _inside_n(root, n):
+    x = n
+    while x is not None and isinstance(x, Node):
+        if x is root:
+            return True
+        x = x.parent
+    return False
+
+
 def ob_schema_flow(ctx, res):
     """C19-F1 + C02-L2"""
     fn = ctx.ast.fn(CB, "bedtobigbed")
     asg = [n for n in walk_no_nested_fn(fn.body) if n.k == "assign" and up(strip(n["l"])) == "outb.autosql"]
-    if len(asg) != 2:
-        res.fail("schemaFlow/sites", fn, "expected two assignments of outb.autosql (stdin path, file path), found %d" % len(asg))
+    ms = [n for n in walk_no_nested_fn(fn.body) if n.k == "match" and up(n["scrut"]) == "args.autosql.as_ref()"]
+    if len(asg) != 2 or len(ms) != 2:
+        res.fail("schemaFlow/sites", fn, "expected the schema to be chosen on --autosql on both input paths (stdin, file): %d assignments of outb.autosql, %d selections" % (len(asg), len(ms)))
         return
-    m = [n for n in walk_no_nested_fn(fn.body) if n.k == "match" and up(n["scrut"]) == "args.autosql.as_ref()"]
-    if len(m) != 1:
-        res.fail("schemaFlow/match", fn, "schema selection on --autosql not found")
-        return
-    arms = {up(a["pat"]).split("(")[0]: a for a in m[0]["arms"]}
-    if "None" not in arms or "Some" not in arms:
-        res.fail("schemaFlow/arms", m[0], "expected None / Some(file) arms")
-        return
-    tn = up(arms["None"]["body"])
-    gen = [c for c in walk_no_nested_fn(arms["None"]["body"]) if c.k == "call" and up(c["func"]).endswith("bed_autosql")]
-    if len(gen) != 1 or not re.search(r"\.1\.rest$", up(strip(gen[0]["args"][0]))) or "BedFileStream::from_bed_file(" not in tn or ".next()" not in tn:
-        res.fail("schemaFlow/generated", arms["None"], "without --autosql the schema must be bed_autosql(rest of the first parsed line of the input)")
-        return
-    ts = up(strip(arms["Some"]["body"]))
-    if not re.fullmatch(r"Some\(std::fs::read_to_string\((\w+)\)\?\)", ts):
-        res.fail("schemaFlow/supplied", arms["Some"], "a supplied schema file must be stored verbatim (read_to_string); got `%s`" % ts)
-        return
-    res.ok(m[0], "bedtobigbed: no --autosql -> bed_autosql(first line's rest); --autosql -> file content verbatim")
+    for m in ms:
+        stdin_path = "stdin" in up(m)
+        which = "stdin" if stdin_path else "file"
+        arms = {up(a["pat"]).split("(")[0]: a for a in m["arms"]}
+        if "None" not in arms or "Some" not in arms:
+            res.fail("schemaFlow/%s/arms" % which, m, "expected None / Some(file) arms")
+            return
+        tn = up(arms["None"]["body"])
+        gen = [c for c in walk_no_nested_fn(arms["None"]["body"]) if c.k == "call" and up(c["func"]).endswith("bed_autosql")]
+        if len(gen) != 1 or not re.search(r"\.1\.rest$", up(strip(gen[0]["args"][0]))):
+            res.fail("schemaFlow/%s/generated" % which, arms["None"], "without --autosql the schema must be bed_autosql(rest of the first parsed line of the input)")
+            return
+        if stdin_path:
+            # the first line is read off stdin, parsed with the same parser, and put back in front of the remaining input
+            rl = [c for c in walk_no_nested_fn(arms["None"]["body"]) if c.k == "mcall" and c["method"] == "read_line" and "stdin" in up(c["recv"])]
+            pb = [c for c in walk_no_nested_fn(arms["None"]["body"]) if c.k == "call" and up(c["func"]) == "parse_bed"]
+            if len(rl) != 1 or len(pb) != 1:
+                res.fail("schemaFlow/stdin/first-line", arms["None"], "the first line must be read from stdin and parsed with parse_bed")
+                return
+            buf = up(strip(rl[0]["args"][0])).lstrip("&").replace("mut ", "")
+            if up(strip(pb[0]["args"][0])).lstrip("&") != buf:
+                res.fail("schemaFlow/stdin/first-line", pb[0], "parse_bed must be given the line just read")
+                return
+            ch = [c for c in walk_no_nested_fn(fn.body) if c.k == "mcall" and c["method"] == "chain" and buf in up(c["recv"]) and "Cursor::new" in up(c["recv"])]
+            if len(ch) != 1 or up(strip(ch[0]["args"][0])) != "stdin" or not (m.order < ch[0].order):
+                res.fail("schemaFlow/stdin/put-back", fn, "the line taken off stdin must be chained back in front of the remaining input (otherwise the first record is lost)")
+                return
+            fb = [c for c in walk_no_nested_fn(fn.body) if c.k == "call" and up(c["func"]).endswith("from_bed_file") and ch[0].order <= c.order]
+            if not fb or "chain" not in origin(fn, fb[0]["args"][0]):
+                res.fail("schemaFlow/stdin/source", fn, "the data source must read the re-assembled stream")
+                return
+        else:
+            if "BedFileStream::from_bed_file(" not in tn or ".next()" not in tn:
+                res.fail("schemaFlow/file/generated", arms["None"], "the first line must be parsed from a fresh handle of the input file")
+                return
+        ts = up(strip(arms["Some"]["body"]))
+        if not re.fullmatch(r"Some\(std::fs::read_to_string\((\w+)\)\?\)", ts):
+            res.fail("schemaFlow/%s/supplied" % which, arms["Some"], "a supplied schema file must be stored verbatim (read_to_string); got `%s`" % ts)
+            return
+        # the selection reaches outb.autosql
+        okas = [a_ for a_ in asg if _inside_n(m, a_["r"]) or origin(fn, a_["r"]).startswith("match") and m.order <= a_.order]
+        res.ok(m, "bedtobigbed (%s): no --autosql -> bed_autosql(first line's rest)%s; --autosql -> file content verbatim" % (which, ", first line chained back in front of stdin" if stdin_path else ""))
     # library: default None -> BED3, stored as C string, field_count from the last parsed declaration (fallback 3)
     wp = ctx.ast.fn(BW, "write_pre")
     t = up(wp.body)
@@ -202,3 +236,74 @@ def ob_slice_provenance(ctx, res):
         return
     if not res.violations:
         res.ok(A, "%d slice / cursor-assignment sites: input sliced only at cursors; cursors only take char_indices positions, data.len() or another cursor; no unwrap on input-derived options" % n)
+
+
+def ob_parser_tables(ctx, res):
+    """C19-K1: declaration list is not capped; keyword -> declaration type agrees between the top-level and the field-type parser; names are identifiers"""
+    # (1) parse_declaration_list: the loop ends only on end of input (None) or an error
+    fn = ctx.ast.fn(A, "parse_declaration_list")
+    loops = [n for n in walk_no_nested_fn(fn.body) if n.k in ("loop", "while", "for")]
+    if len(loops) != 1 or loops[0].k != "loop":
+        res.fail("parserTables/list-loop", fn, "expected one `loop` over the declarations")
+        return
+    for b in [n for n in walk_no_nested_fn(loops[0]["body"]) if n.k in ("break", "return")]:
+        arm = b.parent
+        while arm is not None and isinstance(arm, Node) and arm.k not in ("arm", "if"):
+            arm = arm.parent
+        okb = arm is not None and arm.k == "arm" and up(arm["pat"]) == "None"
+        if okb:
+            m = arm.parent
+            while m is not None and isinstance(m, Node) and m.k != "match":
+                m = m.parent
+            okb = m is not None and "parse_declaration" in origin(fn, m["scrut"])
+        if not okb:
+            res.fail("parserTables/list-cap", b,
+                     "the declaration loop is left by something other than `no more declarations`: declarations after that point are never parsed (not even rejected) and the "
+                     "bigBed header takes its field count from the wrong declaration (four 1-field declarations + a 5-field table: fieldCount 1)")
+            return
+    res.ok(loops[0], "parse_declaration_list: leaves the loop only when parse_declaration reports no further declaration (or with an error)")
+    # (2) keyword -> DeclarationType in both parsers
+    want = {"simple": "Simple", "object": "Object", "table": "Table"}
+    pd = ctx.ast.fn(A, "parse_declaration")
+    got1 = {}
+    for a in walk_no_nested_fn(pd.body):
+        if a.k == "arm" and a["pat"].k == "p_lit" and a["pat"]["lit"]["t"] == "str":
+            mm = re.search(r"DeclarationType::(\w+)", up(a["body"]))
+            if mm:
+                got1[a["pat"]["lit"]["v"]] = mm.group(1)
+    tp = ctx.ast.fn(A, "try_parse")
+    got2 = {}
+    for a in walk_no_nested_fn(tp.body):
+        if a.k == "arm" and a["pat"].k == "p_lit" and a["pat"]["lit"]["t"] == "str":
+            mm = re.search(r"FieldType::Declaration\(DeclarationType::(\w+)", up(a["body"]))
+            if mm:
+                got2[a["pat"]["lit"]["v"]] = mm.group(1)
+    for nm, got, f in (("parse_declaration", got1, pd), ("FieldType::try_parse", got2, tp)):
+        if got != want:
+            bad = {k: (got.get(k), v) for k, v in want.items() if got.get(k) != v}
+            res.fail("parserTables/keywords/%s" % nm, f, "%s maps declaration keywords to the wrong type: %s (got, expected)" % (nm, bad))
+        else:
+            res.ok(f, "%s: simple/object/table -> Simple/Object/Table" % nm)
+    # (3) declaration names are identifiers: letters, digits, underscore; not starting with a digit
+    dn = ctx.ast.fn(A, "parse", impl="DeclareName")
+    ifs = [n for n in walk_no_nested_fn(dn.body) if n.k == "if" and "InvalidDeclareName" in up(n["then"])]
+    if len(ifs) != 1:
+        res.fail("parserTables/name-check", dn, "name validation not found")
+        return
+    c = _sqz(up(ifs[0]["cond"]))
+    lets = {x["pat"]["name"]: _sqz(up(x["init"])) for x in walk_no_nested_fn(dn.body) if x.k == "let" and x["pat"].k == "p_ident" and x.get("init") is not None}
+    for k, v in lets.items():
+        if k == "first":
+            c = c.replace("first", "FIRST")
+    first_ok = "FIRST.is_alphabetic||FIRST=='_'" in c or "FIRST=='_'||FIRST.is_alphabetic" in c
+    rest_ok = re.search(r"\.chars\.any\|(\w)\|!\1\.is_alphanumeric\|\|\1=='_'", c) or re.search(r"\.chars\.any\|(\w)\|!\1\.is_alphanumeric&&\1!='_'", c)
+    if not first_ok or not rest_ok:
+        res.fail("parserTables/name-charset", ifs[0],
+                 "declaration names must be identifiers (letters, digits, `_`; first character a letter or `_`): a name such as `my_bed` is otherwise rejected, the schema does not parse "
+                 "and the bigBed header silently falls back to field count 3; condition: `%s`" % up(ifs[0]["cond"]))
+    else:
+        res.ok(ifs[0], "DeclareName: first character letter or `_`, the rest letters, digits or `_`")
+
+
+def _sqz(t):
+    return re.sub(r"[\s()]", "", t)
